@@ -209,7 +209,7 @@ var stableKeys = []string{"st0", "st1", "st2"}
 func genC05(r *core.Rand, env *core.Env, run int) *Scenario {
 	sc := &Scenario{Kind: "C05"}
 	sc.Knobs = Knobs{ShardNum: pick(r, []int{1, 1, 2, 3, 8, 1024}), Databases: 1, YieldRMW: r.Bool(0.8), MaxSteps: 30000,
-		Strategy: pick(r, []int{0, 0, 1, 1, 2}), PreemptPct: pick(r, []int{5, 15, 30, 50})}
+		Strategy: pick(r, []int{0, 0, 1, 1, 2, 3}), PreemptPct: pick(r, []int{5, 15, 30, 50})}
 	profile := pick(r, []string{"reg", "ctr", "list", "set", "hash", "zset", "mixed", "mixed"})
 	nk := 1 + r.Intn(3)
 	g := &c05gen{r: r, fam: map[string]string{}}
